@@ -273,69 +273,98 @@ Record cg_setup := MkSetup {
   u_s0 : cg_state
 }.
 
-Definition cg_prepare (S : cg_settings) (g : cg_args) : res cg_setup :=
+(* 139-142: the iteration limits in force *)
+Definition eff_max_iter (S : cg_settings) (g : cg_args) : nat := odflt (s_max_cg_iterations S) (g_max_iter g).
+Definition eff_max_tridiag_iter (S : cg_settings) (g : cg_args) : nat :=
+  odflt (s_max_lanczos_quadrature_iterations S) (g_max_tridiag_iter g).
+
+(* 163-166: tensor -> its matmul; callable -> itself; anything else raises *)
+Definition closure_fun (nc : nat) (c : closure) : option (cols -> cols) :=
+  match c with
+  | ClTensor Ms => Some (tensor_mm nc Ms)
+  | ClCallable f => Some f
+  | ClOther => None
+  end.
+
+(* 177-179: rhs_norm = rhs.norm(2, dim=-2); rhs_is_zero = rhs_norm.lt(eps); rhs_norm.masked_fill_(rhs_is_zero, 1)
+   (the `let`s keep vm_compute from recomputing a whole tensor for every entry that reads it) *)
+Definition rhs_norm0 (g : cg_args) : seq F :=
+  mkseq (fun j => norm2 (g_n g) (cget (g_rhs g) j)) (size (g_rhs g)).
+Definition rhs_zero (g : cg_args) : seq bool :=
+  let nrm0 := rhs_norm0 g in
+  mkseq (fun j => altb A (sget nrm0 j) (g_eps g)) (size (g_rhs g)).
+Definition rhs_norm (g : cg_args) : seq F :=
+  let nrm0 := rhs_norm0 g in
+  let isz := rhs_zero g in
+  mkseq (fun j => if bget isz j then a1 A else sget nrm0 j) (size (g_rhs g)).
+(* 143-149: the initial guess (zeros_like(rhs) by default) *)
+Definition guess (g : cg_args) : cols :=
+  if g_x0 g is Some (_, X) then X else ctab (size (g_rhs g)) (g_n g) (fun _ _ => a0 A).
+(* 182-183: rhs = rhs.div(rhs_norm); initial_guess = initial_guess.div(rhs_norm) *)
+Definition rhs_hat (g : cg_args) : cols :=
+  let nrm := rhs_norm g in
+  ctab (size (g_rhs g)) (g_n g) (fun j i => adiv A (vget (cget (g_rhs g) j) i) (sget nrm j)).
+Definition x0_hat (g : cg_args) : cols :=
+  let nrm := rhs_norm g in
+  let x0 := guess g in
+  ctab (size (g_rhs g)) (g_n g) (fun j i => adiv A (vget (cget x0 j) i) (sget nrm j)).
+(* 186: residual = rhs - matmul_closure(initial_guess) *)
+Definition residual0 (g : cg_args) (mm : cols -> cols) : cols :=
+  let rhs := rhs_hat g in
+  let mx0 := mm (x0_hat g) in
+  ctab (size (g_rhs g)) (g_n g) (fun j i => asub A (vget (cget rhs j) i) (vget (cget mx0 j) i)).
+
+(* lines 169-172 and 190-242, given the closure, the normalised data and the first residual.
+   Reads of g below: g_n, g_nc, g_n_tridiag, g_tolerance, g_stop_after, g_pre, the limits - never g_rhs / g_x0. *)
+Definition cg_prepare_tail (S : cg_settings) (g : cg_args) (C : nat) (is_vector : bool) (mm : cols -> cols)
+    (rhs_norm : seq F) (rhs_is_zero : seq bool) (rhs x0 residual : cols) : res cg_setup :=
   let n := g_n g in
-  let C := size (g_rhs g) in
-  (* 134-136 *)
-  let is_vector := g_rhs_is_vec g in
-  (* 139-142 *)
-  let max_iter := odflt (s_max_cg_iterations S) (g_max_iter g) in
-  let max_tridiag_iter := odflt (s_max_lanczos_quadrature_iterations S) (g_max_tridiag_iter g) in
-  (* 143-149 *)
-  let initial_guess := if g_x0 g is Some (_, X) then X else ctab C n (fun _ _ => a0 A) in
-  let is_vector := if g_x0 g is Some (v, _) then v else is_vector in
+  let max_iter := eff_max_iter S g in
+  let max_tridiag_iter := eff_max_tridiag_iter S g in
   (* 150-156 *)
   let tolerance := odflt (s_cg_tolerance S) (g_tolerance g) in
   let pre := if g_pre g is Some f then f else (fun X : cols => X) (* x.clone() *) in
   let precond := if g_pre g is Some _ then true else false in
+  (* 169-172 *)
+  let num_rows := n in
+  let n_iter := if s_terminate_cg_by_size S then minn max_iter num_rows else max_iter in
+  let nti := minn max_tridiag_iter num_rows in
+  (* 190 *)
+  let result := x0 in
+  (* 199-200 *)
+  if ~~ no_nan residual then Err ErrNaN else
+  (* 204-205 *)
+  let residual_norm := mkseq (fun j => norm2 n (cget residual j)) C in
+  let has_converged := mkseq (fun j => altb A (sget residual_norm j) (g_stop_after g)) C in
+  (* 207-208 *)
+  let skip := all id has_converged && (g_n_tridiag g == 0) in
+  let n_iter := if skip then 0 else n_iter in
+  (* 213-215 (not executed when skipped: the fields are then never read) *)
+  let precond_residual := if skip then residual else pre residual in
+  let curr_conjugate_vec := precond_residual in
+  let residual_inner_prod := mkseq (fun j => dot n (cget precond_residual j) (cget residual j)) C in
+  (* 219-221: torch.empty *)
+  let zerosC := mkseq (fun _ => a0 A) C in
+  (* 225-239 *)
+  let Q := size (tri_cols C (g_nc g) (g_n_tridiag g)) in
+  let t_mat := mkseq (fun _ => mtab nti nti (fun _ _ => a0 A)) Q in
+  let zerosQ := mkseq (fun _ => a0 A) Q in
+  let s0 := MkSt (MkNum result residual precond_residual curr_conjugate_vec residual_inner_prod
+                        zerosC zerosC residual_norm has_converged)
+                 (MkTri t_mat zerosQ zerosQ true 0) false 0 in
+  Ok (MkSetup mm pre precond is_vector max_iter tolerance n_iter nti rhs_norm rhs_is_zero rhs x0 skip s0).
+
+Definition cg_prepare (S : cg_settings) (g : cg_args) : res cg_setup :=
+  (* 134-136, 143-149: is_vector is decided by the LAST of (rhs, initial_guess) that was given *)
+  let is_vector := if g_x0 g is Some (v, _) then v else g_rhs_is_vec g in
   (* 159-160 *)
-  if max_iter < max_tridiag_iter then Err ErrTridiagLimit else
+  if eff_max_iter S g < eff_max_tridiag_iter S g then Err ErrTridiagLimit else
   (* 163-166 *)
-  match (match g_mc g with
-         | ClTensor Ms => Some (tensor_mm (g_nc g) Ms)
-         | ClCallable f => Some f
-         | ClOther => None end) with
+  match closure_fun (g_nc g) (g_mc g) with
   | None => Err ErrNotCallable
   | Some mm =>
-    (* 169-172 *)
-    let num_rows := n in
-    let n_iter := if s_terminate_cg_by_size S then minn max_iter num_rows else max_iter in
-    let nti := minn max_tridiag_iter num_rows in
-    let eps := g_eps g in
-    (* 177-179 *)
-    let rhs_norm0 := mkseq (fun j => norm2 n (cget (g_rhs g) j)) C in
-    let rhs_is_zero := mkseq (fun j => altb A (sget rhs_norm0 j) eps) C in
-    let rhs_norm := mkseq (fun j => if bget rhs_is_zero j then a1 A else sget rhs_norm0 j) C in
-    (* 182-183 *)
-    let rhs := ctab C n (fun j i => adiv A (vget (cget (g_rhs g) j) i) (sget rhs_norm j)) in
-    let x0 := ctab C n (fun j i => adiv A (vget (cget initial_guess j) i) (sget rhs_norm j)) in
-    (* 186 *)
-    let mx0 := mm x0 in
-    let residual := ctab C n (fun j i => asub A (vget (cget rhs j) i) (vget (cget mx0 j) i)) in
-    (* 190 *)
-    let result := x0 in
-    (* 199-200 *)
-    if ~~ no_nan residual then Err ErrNaN else
-    (* 204-205 *)
-    let residual_norm := mkseq (fun j => norm2 n (cget residual j)) C in
-    let has_converged := mkseq (fun j => altb A (sget residual_norm j) (g_stop_after g)) C in
-    (* 207-208 *)
-    let skip := all id has_converged && (g_n_tridiag g == 0) in
-    let n_iter := if skip then 0 else n_iter in
-    (* 213-215 (not executed when skipped: the fields are then never read) *)
-    let precond_residual := if skip then residual else pre residual in
-    let curr_conjugate_vec := precond_residual in
-    let residual_inner_prod := mkseq (fun j => dot n (cget precond_residual j) (cget residual j)) C in
-    (* 219-221: torch.empty *)
-    let zerosC := mkseq (fun _ => a0 A) C in
-    (* 225-239 *)
-    let Q := size (tri_cols C (g_nc g) (g_n_tridiag g)) in
-    let t_mat := mkseq (fun _ => mtab nti nti (fun _ _ => a0 A)) Q in
-    let zerosQ := mkseq (fun _ => a0 A) Q in
-    let s0 := MkSt (MkNum result residual precond_residual curr_conjugate_vec residual_inner_prod
-                          zerosC zerosC residual_norm has_converged)
-                   (MkTri t_mat zerosQ zerosQ true 0) false 0 in
-    Ok (MkSetup mm pre precond is_vector max_iter tolerance n_iter nti rhs_norm rhs_is_zero rhs x0 skip s0)
+      cg_prepare_tail S g (size (g_rhs g)) is_vector mm (rhs_norm g) (rhs_zero g) (rhs_hat g) (x0_hat g)
+                      (residual0 g mm)
   end.
 
 Record cg_output := MkOut {
@@ -347,10 +376,15 @@ Record cg_output := MkOut {
   o_mean : F                         (* residual_norm.mean() at exit (text of the warning) *)
 }.
 
+(* the states after loop bodies 1, 2, ... of the run (lines 245-332 with the arguments of this call) *)
+Definition cg_states (S : cg_settings) (g : cg_args) (u : cg_setup) : seq cg_state :=
+  cg_trace (g_n g) (size (g_rhs g)) (g_nc g) (u_mm u) (u_pre u) (u_precond u) (g_eps g) (g_stop_after g)
+           (u_tolerance u) (s_tri_thresh S) (u_rhs_is_zero u) (g_n_tridiag g) (u_max_iter u) (u_nti u)
+           (u_n_iter u) 0 (u_s0 u).
+
+(* the state the loop is left with *)
 Definition cg_final (S : cg_settings) (g : cg_args) (u : cg_setup) : cg_state :=
-  cg_loop (g_n g) (size (g_rhs g)) (g_nc g) (u_mm u) (u_pre u) (u_precond u) (g_eps g) (g_stop_after g)
-          (u_tolerance u) (s_tri_thresh S) (u_rhs_is_zero u) (g_n_tridiag g) (u_max_iter u) (u_nti u)
-          (u_n_iter u) (u_s0 u).
+  last (u_s0 u) (cg_states S g u).
 
 (* lines 334-359 *)
 Definition cg_finish (g : cg_args) (u : cg_setup) (s : cg_state) : cg_output :=
